@@ -1644,7 +1644,7 @@ func ruleC12Hash(c *Ctx) {
 			core.EachInstr(keysCall.Parent(), func(i ssa.Instruction) {
 				if call, ok := i.(*ssa.Call); ok {
 					key := core.CalleeKey(&call.Call)
-					if (strings.HasPrefix(key, "slices.Sort") || strings.HasPrefix(key, "sort.")) && len(call.Call.Args) > 0 && flowsTo(keysCall, call.Call.Args[0]) {
+					if isOrderingSort(call, key) && len(call.Call.Args) > 0 && flowsTo(keysCall, call.Call.Args[0]) {
 						sortCall = call
 					}
 				}
